@@ -1,5 +1,6 @@
 """C16 - richness and overlap estimators follow their closed forms for every count vector."""
 from .. import AnalysisBroken
+from ..eff import check_pure_params
 from ..rules import Equiv, canon_params, check_equiv, check_scope, cmp, guards_imply, len_of, where_of
 from ..terms import const, head, is_const, show, strip, subst
 
@@ -92,6 +93,9 @@ def run(r):
                        "def-use scope analysis and guarded-subscript analysis rule out NameError / IndexError on the declared domain.")
     rep.trust("exact arithmetic (no floating point)", "numpy.sum(v) = sum of the entries of v",
               "builtins set / len / min; set.intersection = &, set.union = |", "pandas.Series.dropna() removes missing values and nothing else")
+    # purity first: cheap, robust, and a recorded violation takes precedence over a later 'cannot decide'
+    check_pure_params(r, "C16-PURE", [M + n for n in CHAO + SETS])
+    rep.floor("C16-PURE", 11)
     rep.assume("counts is a list or array with len(counts) >= 1")
     spec = {n: r.A.summarize_source(SPEC, n) for n in CHAO + SETS}
 
